@@ -151,6 +151,7 @@ def run(eng, rep):
     rep.explain("C08: decision tables of every selection guard over {None, NaN, lo<hi} (T6) -- a NaN candidate never replaces a finite holder, a finite "
                 "candidate replaces a NaN holder, an empty slot is filled, the guard never raises; arg-min over stored objectives is NaN-aware; no try "
                 "statement encloses a call from which objfun is reachable in the call graph (T12).")
+    rep.explain('Also decided: the incumbent re-selection after a re-sample cannot be skipped while a finite value is stored (guards + must-pass-through, C08-1d); finiteness-checking scipy.linalg calls do not run in logging-only code (C08-3).')
     rep.not_decided += ["termination and finiteness of the returned x under every fault sequence (values)",
                         "the NaN test after the trial step and the overflow guard are mechanisms, not necessary conditions; not armed"]
     rep.assumptions.append("budget and bound guarantees (C01/C02 rules) never consult the value returned by objfun, hence hold under every fault sequence")
